@@ -46,7 +46,9 @@ META = dict(
          'triangular / honeycomb, chains, triclinic; spectator and/or several mobile sublattices) x supercell matrix '
          '(diagonal, sheared, negative determinant; 1..64 cells) x optional vacancy x cluster classes (makeclusters + '
          'makeVacancyClusters, or random hand-made clusters reaching across the cell, classes given as lists with '
-         'repeats, empty classes, values with/without constant) x random integer values x spectator occupation; every '
+         'repeats, empty classes, values with/without constant) x random integer values x spectator occupation; plus object-reuse histories (one '
+         'ClusterSupercell driven through addvacancy(None / a / b / ...), every evaluator incl. the jump-network evaluators '
+         'after each move, against brute force, the model and a freshly built supercell); every '
          'occupation of a configuration is one evaluation; a configuration is non-trivial when some interaction tuple '
          'was merged or has a repeated index or a spectator-only constant; distinct by exported text',
     trusted=['export of the clusters in the order the implementation iterates them (lists, not sets)',
@@ -118,7 +120,7 @@ def build(spec):
     if nrng.random() < 0.2: values[nrng.integers(nval)] = 0.
     socc = nrng.integers(0, 2, size=sup.Nspec * sup.size)
     if sup.Nspec and nrng.random() < 0.2: socc[:] = 1
-    return dict(sup=sup, crys=crys, classes=classes, values=values, socc=socc, vac=vac, n=n, chem=chem, nrng=nrng)
+    return dict(sup=sup, crys=crys, classes=classes, values=values, socc=socc, vac=vac, n=n, chem=chem, nrng=nrng, jcut=jcut)
 
 
 def _mat_txt(mats):
@@ -149,10 +151,84 @@ def eval_config(spec):
     t0 = time.time()
     res = dict(spec=spec, lines=[], expect=[], viol=[], nocc=0, flags=set(), err=None)
     try:
-        c = build(spec)
+        c = build(dict(spec, vac=None, vacclusters=True) if spec.get('vacseq') is not None else spec)
     except Exception as e:
         res['err'] = 'build: %r' % (e,)
         return res
+    if spec.get('vacseq') is None:
+        return _eval_step(c, spec, res, t0)
+    # ---- object-reuse history: ONE ClusterSupercell driven through addvacancy(None / a / b / ...), every evaluator
+    #      after every move, against brute force, the Lean model and a freshly constructed supercell
+    from onsager import supercell
+    sup, n = c['sup'], c['n']
+    cands = [k for k in range(n) if sup.mobileindices[k % sup.Nmobile][0] == c['chem']]
+    hist = []
+    for step, v in enumerate(spec['vacseq']):
+        v = None if v is None else int(cands[v % len(cands)])
+        hist.append(v)
+        sup.addvacancy(v); c['vac'] = v
+        nv = len(res['viol'])
+        _eval_step(c, dict(spec, vac=v), res, t0)
+        fresh = supercell.ClusterSupercell(c['crys'], np.array(spec['S'], dtype=int), spectator=list(sup.spectator))
+        fresh.addvacancy(v)
+        _compare_fresh(c, fresh, res, spec)
+        for x in res['viol'][nv:]:
+            if step > 0: x['sig'] = 'reuse-history:' + x['sig']
+            x['replay']['vacancy_history'] = list(hist)
+            x['what'] = 'one ClusterSupercell after addvacancy %r: %s' % (hist, x['what'])
+        if res['err']: return res
+        res['flags'] = set(res['flags'])
+    res['flags'].add('reuse-history')
+    res['flags'] = sorted(res['flags'])
+    return res
+
+
+def _same_jumpeval(a, b):
+    (si1, ia1, j1, r1), (si2, ia2, j2, r2) = a, b
+    return ([list(map(int, x)) for x in si1] == [list(map(int, x)) for x in si2] and
+            [float(x) for x in ia1] == [float(x) for x in ia2] and list(map(int, r1)) == list(map(int, r2)) and
+            len(j1) == len(j2) and all(tuple(x[0]) == tuple(y[0]) and np.allclose(x[1], y[1]) for x, y in zip(j1, j2)))
+
+
+def _compare_fresh(c, fresh, res, spec):
+    """every table-building evaluator on the reused object vs. a freshly constructed supercell with the same vacancy"""
+    sup, classes, values, socc, vac, nrng = c['sup'], c['classes'], c['values'], c['socc'], c['vac'], c['nrng']
+
+    def bad(which, what):
+        res['viol'].append(dict(sig='differs-from-fresh:' + which, what=what,
+                                replay=dict(spec=spec, vac=vac, socc=[int(x) for x in socc], values=[float(x) for x in values])))
+    try:
+        a, b = sup.clusterevaluator(socc, classes, values), fresh.clusterevaluator(socc, classes, values)
+        if [list(x) for x in a[0]] != [list(x) for x in b[0]] or list(a[1]) != list(b[1]):
+            bad('clusterevaluator', 'clusterevaluator tables differ from those of a fresh supercell')
+        a, b = sup.expandcluster_matrices(socc, classes), fresh.expandcluster_matrices(socc, classes)
+        if _mat_txt(a) != _mat_txt(b): bad('expandcluster_matrices', 'index matrices differ from those of a fresh supercell')
+        for _ in range(4):
+            occ = nrng.integers(0, 2, size=c['n'])
+            if vac is not None: occ[vac] = -1
+            if list(sup.evalcluster(occ, socc, classes)) != list(fresh.evalcluster(occ, socc, classes)):
+                bad('evalcluster', 'evalcluster counts differ from those of a fresh supercell on occ %r' % (occ.tolist(),))
+                break
+        jn = c['crys'].jumpnetwork(c['chem'], c['jcut'])
+        KRA = np.arange(1., len(jn) + 1)
+        # (the moving-atom evaluator does not accept vacancy clusters: Cluster.__sub__ is undefined for them)
+        keep = [k for k, cls in enumerate(classes) if vac is not None or not any(cl.__vacancy__ for cl in cls)]
+        cl_j = [classes[k] for k in keep]
+        val_j = np.array([values[k] for k in keep] + ([values[-1]] if len(values) > len(classes) else []))
+
+        def jeval(obj):
+            si, ia = obj.clusterevaluator(socc, cl_j, val_j)
+            f = obj.jumpnetworkevaluator if vac is None else obj.jumpnetworkevaluator_vacancy
+            return f(socc, cl_j, val_j, c['chem'], jn, KRA, (), (), [list(x) for x in si], list(ia))
+        a, b = jeval(sup), jeval(fresh)
+        which = 'jumpnetworkevaluator' if vac is None else 'jumpnetworkevaluator_vacancy'
+        if not _same_jumpeval(a, b): bad(which, which + ' tables differ from those of a fresh supercell')
+    except Exception as e:
+        bad('raises:' + type(e).__name__, 'evaluator raised %r on the reused supercell / fresh supercell' % (e,))
+
+
+def _eval_step(c, spec, res, t0):
+    from onsager import cluster
     sup, classes, values, socc, vac, n, nrng = c['sup'], c['classes'], c['values'], c['socc'], c['vac'], c['n'], c['nrng']
     ncls = len(classes)
     def crash(where, e, **kw):
@@ -282,6 +358,7 @@ def eval_config(spec):
             res['flags'].add('malformed-occ')
     res['n'] = n
     res['ninter'] = len(ia)
+    res['flags'] = set(res['flags'])
     res['secs'] = time.time() - t0
     res['flags'] = sorted(res['flags'])
     return res
@@ -330,6 +407,16 @@ def _plan(ctx, thorough):
         cands = [S for S in sup_small if 1 <= sizes[name] * abs(int(round(np.linalg.det(S)))) <= exhaust]
         S = cands[rng.randrange(len(cands))]
         add(name, S, mode='random', vac=('rand' if t % 2 else None), const=(t % 3 != 0))
+    # (5) object-reuse histories: one ClusterSupercell, vacancy moved around (None / a / b / ...), all evaluators each time
+    nh = 40 if thorough else 10
+    hnames = ['FCC', 'HCP', 'HON2d', 'CHAIN2', 'B2', 'SQ2d', 'RSm', 'TRICL', 'DIA', 'TRI2d', 'HONs2d', 'CHAINm']
+    for t in range(nh):
+        name = hnames[t % len(hnames)]
+        cands = [S for S in sup_small if 3 <= sizes[name] * abs(int(round(np.linalg.det(S)))) <= 10]
+        S = cands[rng.randrange(len(cands))]
+        seq = [None] + [rng.randrange(12) for _ in range(4)] + [None, rng.randrange(12)]
+        if t % 3 == 0: seq = [0, 3, 5, 2, None, 3]
+        add(name, S, vacseq=seq, order=rng.choice([2, 3]), exhaust=5, nrandom=10, malformed=False)
     # (4) larger supercells, random occupations
     big = Z.big_supers()
     nb = 60 if thorough else 5
@@ -404,10 +491,11 @@ def replay(ctx, data):
     rp = data.get('replay') or {}
     if 'spec' not in rp:
         print(data); return 0
-    c = build(rp['spec'])
-    sup, classes, values, socc = c['sup'], c['classes'], c['values'], c['socc']
-    print('configuration:', rp['spec'])
-    if 'occ' not in rp:
+    print('configuration:', rp['spec'], 'vacancy history on one object:', rp.get('vacancy_history'))
+    if 'occ' in rp and 'vacancy_history' not in rp:
+        c = build(rp['spec'])
+        sup, classes, values, socc = c['sup'], c['classes'], c['values'], c['socc']
+    if 'occ' not in rp or 'vacancy_history' in rp:
         r = eval_config(rp['spec'])
         print('violations now:', [v['sig'] for v in r['viol']])
         return 1 if r['viol'] else 0
